@@ -11,6 +11,7 @@ from dalimc.core.runner import new_result, add_violation, observe, sample
 from dalimc.env import gear102 as G
 
 ID = "C08"
+OPTIMISED_STRIDE = {"quick": 10, "thorough": 20}      # every k-th shard once more in an interpreter started with -O
 LEVEL = "model_checking"
 ENGINE = "E2"
 TECHNIQUE = "exhaustive enumeration of gear states and of all adversarial answer streams up to a length bound, driving the real generator sequences against a spec model of the gear"
